@@ -97,7 +97,18 @@ func newHelpers(p *Program) map[*types.Func]*ast.FuncDecl {
 
 // buildInlinedView returns a program in which calls of new helpers are inlined, the names of the
 // helpers that were inlined, and an overlay of the rewritten files. nil when there is nothing to do.
-func buildInlinedView(repoDir, goarch string, orig *Program) (*Program, []string, error) {
+func buildInlinedView(repoDir, goarch string, orig *Program) (p *Program, names []string, err error) {
+	defer func() {
+		// the view is an aid against false alarms: if building it fails in any way the tree as
+		// written is what gets reported
+		if r := recover(); r != nil {
+			p, names, err = nil, nil, fmt.Errorf("inliner panicked: %v", r)
+		}
+	}()
+	return buildInlinedView1(repoDir, goarch, orig)
+}
+
+func buildInlinedView1(repoDir, goarch string, orig *Program) (*Program, []string, error) {
 	if len(newHelpers(orig)) == 0 {
 		return nil, nil, nil
 	}
